@@ -57,6 +57,7 @@ def gkey(g):
 def tri(p):
     p = np.asarray(p, dtype=float)
     f = p.copy()
+    f[0] = p[0] + 1
     f[1:] = p[1:] + p[0] ** 2
     return f
 
@@ -64,7 +65,8 @@ def tri(p):
 def tri_inv(f):
     f = np.asarray(f, dtype=float)
     p = f.copy()
-    p[1:] = f[1:] - f[0] ** 2
+    p[0] = f[0] - 1
+    p[1:] = f[1:] - (f[0] - 1) ** 2
     return p
 
 
